@@ -546,38 +546,49 @@ func (cx *Ctx) validateBoundsFee(r *Report) bool {
 		return false
 	}
 	v := cx.P.SSA.FuncValue(sel.Obj().(*types.Func))
-	// Fee is read by Validate and a callee compares a LegacyDec with One via LT/GTE/GT
-	reach := cx.Reachable([]*ssa.Function{v}, nil)
-	readsFee, comparesOne := false, false
-	for _, f := range reach.Order {
-		if f.Blocks == nil {
-			continue
+	// some failure exit of the validation closure is taken exactly when ¬(Fee < 1)
+	return cx.rejectsWhen(v, false, "LegacyDec.LT(", ".Fee, math.LegacyOneDec())")
+}
+
+// rejectsWhen: walking every chain from fn, some failure exit holds a dominating
+// fact with the given polarity whose text contains all substrings.
+func (cx *Ctx) rejectsWhen(fn *ssa.Function, holds bool, subs ...string) bool {
+	w := newWalker(cx)
+	found := false
+	w.Walk(fn, func(fr *Frame) {
+		if found || fr.Fn.Blocks == nil {
+			return
 		}
-		for _, b := range f.Blocks {
-			for _, ins := range b.Instrs {
-				if fa, ok := ins.(*ssa.FieldAddr); ok && fieldNameShort(fa.X.Type(), fa.Field) == "Fee" {
-					readsFee = true
+		for _, b := range fr.Fn.Blocks {
+			last := b.Instrs[len(b.Instrs)-1]
+			isFail := false
+			if ret, ok := last.(*ssa.Return); ok && isFailureReturn(ret) {
+				isFail = true
+			}
+			if _, ok := last.(*ssa.Panic); ok {
+				isFail = true
+			}
+			if !isFail {
+				continue
+			}
+			// the failure must propagate: every frame above returns the error (validators do)
+			for _, ft := range w.blockFacts(fr, b, 0) {
+				if ft.Holds != holds {
+					continue
 				}
-				if fa, ok := ins.(*ssa.Field); ok && fieldNameShort(fa.X.Type(), fa.Field) == "Fee" {
-					readsFee = true
-				}
-				if c, ok := ins.(*ssa.Call); ok {
-					pkg, name := calleeName(c.Common())
-					if pkg == "cosmossdk.io/math" && (name == "LegacyDec.LT" || name == "LegacyDec.GTE" || name == "LegacyDec.GT" || name == "LegacyDec.LTE") {
-						for _, a := range c.Common().Args {
-							if ac, ok := a.(*ssa.Call); ok {
-								_, an := calleeName(ac.Common())
-								if an == "LegacyOneDec" {
-									comparesOne = true
-								}
-							}
-						}
+				all := true
+				for _, s := range subs {
+					if !strings.Contains(ft.Text, s) {
+						all = false
 					}
+				}
+				if all {
+					found = true
 				}
 			}
 		}
-	}
-	return readsFee && comparesOne
+	})
+	return found
 }
 
 // callersHoldPositiveReserves: every consensus caller of the price function tests
